@@ -31,7 +31,12 @@ OPS = [(k, v) for k in KEYS3 for v in VALUES]
 
 def walk_invariant(ctx, trie, history):
     """Counter of every node == number of valued nodes strictly below it."""
-    from ural.classes.trie_dict import NULL
+    try:
+        from ural.classes.trie_dict import NULL
+    except ImportError:  # the sentinel was renamed: the inner structure is not the one this walk knows
+        ctx.count("invariant-root-absent")
+        ctx.count("invariant-walks:not-applicable")
+        return
 
     root = getattr(trie, "_TrieDict__root", None)
     if root is None:
